@@ -410,7 +410,7 @@ def forall_histories(ctx, seed):
     from rsome import ro, dro
     r = np.random.default_rng(seed)
     ctx.search_cases += 1; ctx.evaluations += 1
-    kind = str(r.choice(['forall-after-solve', 'forall-after-solve-dro', 'piecewise-forall-twice', 'integer-var-after-solve', 'equality-forall-after-st']))
+    kind = str(r.choice(['forall-after-solve', 'forall-after-solve-dro', 'piecewise-forall-twice', 'integer-var-after-solve', 'equality-forall-after-st', 'rvar-after-sets', 'rvar-after-sets']))
     a = float(r.choice([1.0, 2.0, 0.5])); r1 = float(r.choice([1.0, 2.0])); r2 = r1 + float(r.choice([1.0, 3.0]))
     case = {"forall_seed": seed, "kind": kind}
 
@@ -448,6 +448,24 @@ def forall_histories(ctx, seed):
                         c.forall(z == 0.5 * r1)
                     else:
                         mm.st(c.forall(z == 0.5 * r1))
+                    return mm
+                m = build(True); ref = build(False)
+            elif kind == 'rvar-after-sets':
+                # a random variable declared after sets with auxiliary columns (1-norm, inf-norm) were formulated - with another set
+                # of fewer auxiliary columns in between - and then used with a decision coefficient under the DEFAULT set: it is
+                # unrestricted there, exactly as if it had been declared first
+                p1 = str(r.choice(['norm1', 'norminf', 'norm1'])); other = str(r.choice(['box', 'norm2', 'norminf']))
+                cw = float(r.choice([1.0, -1.0, 2.0]))
+
+                def build(late):
+                    mm = ro.Model(); x = mm.dvar(); y = mm.dvar(); z = mm.rvar(2)
+                    w = None if late else mm.rvar()
+                    mm.minmax(x, (rso.norm(z, 1) <= r1) if p1 == 'norm1' else (rso.norm(z, 'inf') <= r1))
+                    own = [z >= -r2, z <= r2] if other == 'box' else ([rso.norm(z, 2) <= r2] if other == 'norm2' else [rso.norm(z, 'inf') <= r2])
+                    mm.st((x >= a * z[0] - 10).forall(own))
+                    if late:
+                        w = mm.rvar()
+                    mm.st(x >= z.sum() + cw * y * w + y, y >= -5, y <= 5)
                     return mm
                 m = build(True); ref = build(False)
             elif kind == 'piecewise-forall-twice':
